@@ -710,6 +710,14 @@ static int PolicyVerificationResult_create(KSI_PolicyVerificationResult **result
 		res = KSI_OUT_OF_MEMORY;
 		goto cleanup;
 	}
+	/* Make the partially constructed object safe for KSI_PolicyVerificationResult_free. */
+	tmp->ref = 1;
+	tmp->ruleResults = NULL;
+	tmp->policyResults = NULL;
+	res = KSI_RuleVerificationResult_init(&tmp->finalResult);
+	if (res != KSI_OK) {
+		goto cleanup;
+	}
 
 	res = KSI_RuleVerificationResultList_new(&tmp->ruleResults);
 	if (res != KSI_OK) {
@@ -721,12 +729,6 @@ static int PolicyVerificationResult_create(KSI_PolicyVerificationResult **result
 		goto cleanup;
 	}
 
-	res = KSI_RuleVerificationResult_init(&tmp->finalResult);
-	if (res != KSI_OK) {
-		goto cleanup;
-	}
-
-	tmp->ref = 1;
 	*result = tmp;
 	tmp = NULL;
 	res = KSI_OK;
